@@ -61,7 +61,7 @@ ASSUMPTIONS = ["develop mode only, no sandbox, no svn SCM, git only with a pinne
                "the Build-Id formula itself is taken from Bob (StepIR.getDigestCoro); C02/C03 check it",
                "Bob runs inside the harness process; every suspected violation is re-run with the real `bob` script "
                "in fresh processes before it is reported"]
-TIME_BUDGET = {"quick": 200, "thorough": 1700}
+TIME_BUDGET = {"quick": 180, "thorough": 1700}
 BATCH = 4
 
 # Meta variables enter no id unless a step consumes them: after a metadata-only recipe edit Bob skips all steps and the
@@ -470,10 +470,13 @@ def levels(doc):
 
 PLAIN = re.compile(r"^[A-Za-z0-9_.:/-]*$")
 
-def check_project(ctx, case, tag, project, g, hist, before, foreign, metadefs, model, git):
+def check_project(ctx, case, tag, project, g, hist, before, foreign, metadefs, model, git, missing_ok=False, rgit=None):
     """Judge all trails of the closure of the root package.  before: audit_files() snapshot taken before the last
     invocation (None: everything was written by it).  foreign: {artifact-id: document} of the producer project.
-    Returns (docs by workspace, statistics)."""
+    missing_ok: some earlier invocation in these workspaces ran with --no-audit: a step executed then has no trail, and
+    Bob (warning "AUDIT ... failed") writes none for steps executed later on top of it - a missing trail is accepted,
+    an existing one has to be truthful all the same.  rgit: None, or {"commit", "dirty"}: the project directory is a git
+    repository in that state.  Returns (docs by workspace, statistics)."""
     import bob
     fail = lambda sig, detail: ctx.fail(sig, "%s: %s" % (tag, detail), case)
     now = audit_files(project)
@@ -493,7 +496,14 @@ def check_project(ctx, case, tag, project, g, hist, before, foreign, metadefs, m
             fail("result-missing", "%s was not produced although it is %s" % (what, why))
             continue
         if not os.path.exists(apath):
-            fail("audit-missing", "%s has a workspace but no audit.json.gz (needed as %s)" % (what, why))
+            docs[ws] = None
+            if missing_ok and not os.path.lexists(apath):
+                # (nothing foreign is without trail: the dependencies were needed locally)
+                ctx.label("trail-missing-after-no-audit")
+                for d in g.deps(i):
+                    todo.append((d, "dependency of " + what))
+            else:
+                fail("audit-missing", "%s has a workspace but no audit.json.gz (needed as %s)" % (what, why))
             continue
         try:
             doc = read_audit(apath)
@@ -669,6 +679,16 @@ def check_project(ctx, case, tag, project, g, hist, before, foreign, metadefs, m
             else:
                 fail("metaenv-wrong", "%s: metaEnv %r, the package has %r (earlier states: %r)" % (what, me, i.metaenvs, hist.metaenv.get(key)))
         if not is_foreign:
+            # state of the recipes ("If Bob recognizes that the recipes are managed in a supported SCM ...")
+            rc = art.get("recipes")
+            if rgit is None:
+                if rc is not None:
+                    fail("recipes-state-wrong", "%s: the project is under no version control, recorded recipes state: %r" % (what, rc))
+            elif not isinstance(rc, dict) or rc.get("type") != "git" or rc.get("dir") != "." or rc.get("commit") != rgit["commit"] or \
+                    not isinstance(rc.get("dirty"), bool) or not isinstance(rc.get("description"), str) or rc.get("remotes") != {} or \
+                    (fresh and rc["dirty"] is not rgit["dirty"]) or rc["description"].endswith("-dirty") is not rc["dirty"]:
+                fail("recipes-state-wrong", "%s: the recipes are a git repository at commit %s, %s%s; recorded: %r" %
+                     (what, rgit["commit"], "modified" if rgit["dirty"] else "unmodified", "" if fresh else " (trail of an earlier invocation)", rc))
             for k, v in metadefs.items():
                 if k in ("bob", "recipe", "package", "step", "language"):
                     continue
@@ -734,7 +754,7 @@ def check_project(ctx, case, tag, project, g, hist, before, foreign, metadefs, m
     return docs, stats
 
 def archive_docs(arch):
-    """[(tarball path, trail document | None)]"""
+    """[(tarball path, trail document | None | "<what is there instead of a regular file>")]"""
     out = []
     for dp, dn, fn in os.walk(arch):
         for f in fn:
@@ -745,7 +765,10 @@ def archive_docs(arch):
             with tarfile.open(p, "r:*") as tar:
                 for ti in tar:
                     if ti.name == "meta/audit.json.gz":
-                        doc = json.loads(gzip.decompress(tar.extractfile(ti).read()).decode("utf8"))
+                        if not ti.isreg():
+                            doc = "%s%s" % ({tarfile.SYMTYPE: "symbolic link to ", tarfile.LNKTYPE: "hard link to "}.get(ti.type, "member of type %r " % ti.type), ti.linkname)
+                        else:
+                            doc = json.loads(gzip.decompress(tar.extractfile(ti).read()).decode("utf8"))
                         break
             out.append((p, doc))
     return out
@@ -759,12 +782,58 @@ def argv_for(model, meta, jobs, extra=()):
     if jobs: a += ["-j", str(jobs)]
     return a + list(extra)
 
+def add_leaves(model, n, base_fid=940):
+    """a copy of the model with n independent leaf recipes lf<i> (build + package script, no checkout) the root depends on:
+    under -j they are the first steps to finish, at about the same time"""
+    m = copy.deepcopy(model)
+    for k in range(n):
+        b = {"root": False, "inherit": [], "depends": [], "environment": {}, "privateEnvironment": {}, "metaEnvironment": {},
+             "provideVars": {}, "provideDeps": [], "provideTools": {}, "checkoutDeterministic": False, "import": False,
+             "shared": False, "relocatable": None, "tooldirs": False, "fp": False,
+             "steps": {st_: {"setup": None, "script": None, "finalize": None, "vars": [], "varsWeak": [], "tools": [], "toolsWeak": []}
+                       for st_ in projgen.STEPS}}
+        b["steps"]["build"]["script"] = base_fid + 2 * k
+        b["steps"]["package"]["script"] = base_fid + 2 * k + 1
+        m["recipes"].append({"name": "lf%d" % k, "body": b, "multi": None})
+        m["recipes"][0]["body"]["depends"].append({"name": "lf%d" % k, "use": ["result"], "forward": False, "env": {}, "if": None,
+                                                   "checkoutDep": False, "tools": None})
+    return m
+
+def tracked_files(project):
+    out = {}
+    for dp, dn, fn in os.walk(project):
+        if dp == project:
+            dn[:] = [d for d in dn if d in ("recipes", "classes", "src")]
+        for f in fn:
+            if dp == project and not f.endswith(".yaml"):
+                continue
+            p = os.path.join(dp, f)
+            with open(p, "rb") as fh:
+                out[os.path.relpath(p, project)] = fh.read()
+    return out
+
+def git_init_project(base, project):
+    """put the freshly rendered project (nothing built yet) under version control: -> {"commit", "files"}"""
+    import subprocess
+    env = bobproc.clean_env(base)
+    for a in (["init", "-q", "-b", "master", "."], ["add", "-A"], ["commit", "-q", "-m", "recipes"]):
+        subprocess.run(["git"] + a, cwd=project, env=env, check=True, stdin=subprocess.DEVNULL,
+                       stdout=subprocess.DEVNULL, stderr=subprocess.DEVNULL)
+    return {"commit": git_head(project), "files": tracked_files(project)}
+
+def recipes_state(project, rg):
+    """what `git describe --dirty` is about: a tracked file is modified or gone (untracked files do not count)"""
+    if rg is None:
+        return None
+    cur = tracked_files(project)
+    return {"commit": rg["commit"], "dirty": any(cur.get(k) != v for k, v in rg["files"].items())}
+
 def refused_for_trail(ctx, case, tag, r):
     """No generated history gives Bob a reason to complain about an audit trail (the artifacts in the archive / share are
     the ones of the producer whose trails were just judged): such an error means Bob itself read a wrong trail."""
     if r.rc != 0:
         for l in r.err.splitlines():
-            if "audit" in l.lower():
+            if "audit" in l.lower() and l.lstrip().lower().startswith(("build error", "parse error", "error", "bob error")):
                 ctx.fail("bob-rejects-its-own-trail", "%s: the build failed with: %s" % (tag, l.strip()[:300]), case)
                 return
 
@@ -780,12 +849,19 @@ def run_case(ctx, case, confirm=False):
                 f.write(url_content(n))
         m0 = overlay(case["model"], case)
         git = git_upstream(ctx) if case.get("git") else None
+        jobs = case.get("jobs")
+        if case.get("rgit"):
+            # the recipes are tracked by git (Bob then queries the repository state while the first trails are written)
+            # and several independent packages are built in parallel
+            m0 = add_leaves(m0, 2 + case["rgit"] % 3)
+            jobs = 2 + (case["rgit"] // 3) % 3
+        noaudit = list(case.get("noaudit") or [])
         hist = Hist()
-        labels = ["kind:" + kind, "jobs:%s" % case.get("jobs")]
+        labels = ["kind:" + kind, "jobs:%s" % jobs] + (["recipes-in-git"] if case.get("rgit") else [])
         sample = {"kind": kind, "recipes": len(m0["recipes"])}
         nontrivial = False
         agg = {"judged": 0, "fresh": 0, "foreign": 0, "refs": 0, "toolrefs": 0}
-        def judge(tag, project, model, before, foreign, meta):
+        def judge(tag, project, model, before, foreign, meta, missing_ok=False, rgit=None):
             g = load_graph(project, model.get("defines"))
             if g is None or g.root is None:
                 if g is not None: g.close()
@@ -793,7 +869,7 @@ def run_case(ctx, case, confirm=False):
                 return None, None
             try:
                 hist.add(g)
-                docs, s = check_project(ctx, case, tag, project, g, hist, before, foreign, meta, model, git)
+                docs, s = check_project(ctx, case, tag, project, g, hist, before, foreign, meta, model, git, missing_ok, rgit)
             finally:
                 g.close()
             for k in agg:
@@ -812,10 +888,21 @@ def run_case(ctx, case, confirm=False):
             sample["edits"] = [d for _, d in states[1:]]
             labels += ["edit:" + e[0] for e in edits]
             rejected = 0
+            rg = None
+            lenient = False
             for n, (m, desc) in enumerate(states):
                 render(m, W, urlbase, git=git)
+                if n == 0 and case.get("rgit"):
+                    rg = git_init_project(base, W)
+                rstate = recipes_state(W, rg)
                 before = audit_files(W) if n else None
-                r = run(W, argv_for(m, case["meta"], case.get("jobs")), env_extra=C1.env_for(W))
+                # an invocation without audit trail in between (never the first, never the last one)
+                na = 0 < n < len(states) - 1 and n < len(noaudit) and bool(noaudit[n])
+                if na:
+                    lenient = True
+                    labels.append("no-audit-invocation")
+                    desc += ", --no-audit"
+                r = run(W, argv_for(m, case["meta"], jobs, ["--no-audit"] if na else []), env_extra=C1.env_for(W))
                 if r.rc not in (0, 1):
                     ctx.fail("internal-error", "state %d (%s): exit status %d\n%s" % (n, desc, r.rc, r.err[-1500:]), case)
                 if r.rc != 0:
@@ -823,7 +910,7 @@ def run_case(ctx, case, confirm=False):
                     rejected += 1
                     remember(W, m)
                     continue
-                docs, s = judge("state %d (%s)" % (n, desc), W, m, before, {}, case["meta"])
+                docs, s = judge("state %d (%s)" % (n, desc), W, m, before, {}, case["meta"], lenient, rstate)
                 if s and n and s["nontrivial_fresh"]:
                     nontrivial = True
                 t = (case.get("touch") or [None] * 3)[n] if n < 3 else None
@@ -837,21 +924,25 @@ def run_case(ctx, case, confirm=False):
             if rejected:
                 labels.append("some-state-rejected")
         else:
-            arch = os.path.join(base, "archive") if kind == "download" else None
+            # (shared kind, half of the cases: the producer also uploads what it installs into the share, the consumer may
+            # take results from either place)
+            arch = os.path.join(base, "archive") if kind == "download" or case.get("sh_upload") else None
             store = os.path.join(base, "store") if kind == "shared" else None
             PA = os.path.join(base, "a", "w")
             PB = os.path.join(base, "bbbbbbbbbbbb", "deeper", "project-b")
             os.makedirs(PA); os.makedirs(PB)
             render(m0, PA, urlbase, arch, store, git)
-            extra = ["--upload", "--download=no"] if kind == "download" else []
-            ra = run(PA, argv_for(m0, case["meta"], case.get("jobs"), extra), env_extra=C1.env_for(PA))
+            rg = git_init_project(base, PA) if case.get("rgit") else None
+            extra = ["--upload", "--download=no"] if arch else []
+            if arch and kind == "shared": labels.append("shared+upload")
+            ra = run(PA, argv_for(m0, case["meta"], jobs, extra), env_extra=C1.env_for(PA))
             if ra.rc not in (0, 1):
                 ctx.fail("internal-error", "producer: exit status %d\n%s" % (ra.rc, ra.err[-1500:]), case)
             if ra.rc != 0:
                 refused_for_trail(ctx, case, "producer", ra)
                 ctx.record(jhash(case), False, labels + ["producer-state-rejected"], sample)
                 return
-            docsA, sA = judge("producer", PA, m0, None, {}, case["meta"])
+            docsA, sA = judge("producer", PA, m0, None, {}, case["meta"], False, recipes_state(PA, rg))
             foreign = {}
             for rel in audit_files(PA):
                 try:
@@ -860,7 +951,7 @@ def run_case(ctx, case, confirm=False):
                 except (OSError, ValueError, KeyError, TypeError, EOFError):
                     pass
             in_archive = {}
-            if kind == "download":
+            if arch:
                 tars = archive_docs(arch)
                 if not tars:
                     ctx.fail("nothing-uploaded", "producer: --upload succeeded but the archive holds no artifact", case)
@@ -868,6 +959,9 @@ def run_case(ctx, case, confirm=False):
                     rel = os.path.relpath(p, arch)
                     if doc is None:
                         ctx.fail("uploaded-artifact-without-trail", "artifact %s has no meta/audit.json.gz" % rel, case)
+                        continue
+                    if isinstance(doc, str):
+                        ctx.fail("uploaded-trail-not-a-file", "artifact %s: meta/audit.json.gz is a %s" % (rel, doc), case)
                         continue
                     aid = (doc.get("artifact") or {}).get("artifact-id")
                     if aid not in foreign:
@@ -889,11 +983,17 @@ def run_case(ctx, case, confirm=False):
                 cstates.append((back, "consumer after taking the edits back"))
             sample["edits"] = [d for _, d in hB]
             labels.append("consumer-edits:%d" % len(hB))
-            extra = ["--download=" + case.get("dlmode", "yes")] if kind == "download" else []
+            extra = ["--download=" + case.get("dlmode", "yes")] if arch else []
+            lenient = False
             for n, (mB, tag) in enumerate(cstates):
                 render(mB, PB, urlbase, arch, store, git)
                 before = audit_files(PB) if n else None
-                rb = run(PB, argv_for(mB, case["meta2"], case.get("jobs"), extra), env_extra=C1.env_for(PB))
+                na = n == 0 and len(cstates) > 1 and bool(case.get("consumer_noaudit"))
+                if na:
+                    lenient = True
+                    labels.append("no-audit-invocation")
+                    tag += ", --no-audit"
+                rb = run(PB, argv_for(mB, case["meta2"], jobs, extra + (["--no-audit"] if na else [])), env_extra=C1.env_for(PB))
                 if rb.rc not in (0, 1):
                     ctx.fail("internal-error", "%s: exit status %d\n%s" % (tag, rb.rc, rb.err[-1500:]), case)
                 if rb.rc != 0:
@@ -903,16 +1003,16 @@ def run_case(ctx, case, confirm=False):
                         return
                     labels.append("consumer-second-state-rejected")
                     break
-                docsB, sB = judge(tag, PB, mB, before, foreign, case["meta2"])
+                docsB, sB = judge(tag, PB, mB, before, foreign, case["meta2"], lenient)
                 if not sB:
                     break
-                if kind == "download":
+                if arch and kind == "download":
                     for ws, doc in (docsB or {}).items():
                         if doc and doc["artifact"]["artifact-id"] in foreign and doc["artifact"]["artifact-id"] not in in_archive:
                             ctx.fail("foreign-trail-altered", "%s: %s carries the uploader's trail %s which is in no artifact of the "
                                      "archive" % (tag, ws, doc["artifact"]["artifact-id"]), case)
                 if sB["foreign"]:
-                    labels.append(("downloaded" if kind == "download" else "shared-used") + (":second-invocation" if n else ""))
+                    labels.append(("downloaded" if kind == "download" else "shared-or-downloaded" if arch else "shared-used") + (":second-invocation" if n else ""))
                     if sB["judged"] > sB["foreign"] and not n: labels.append("mixed-local-and-foreign")
                     nontrivial = nontrivial or sB["nontrivial_trail"]
         labels.append("refs:%s" % ("0" if agg["refs"] == 0 else "1-3" if agg["refs"] <= 3 else "4-9" if agg["refs"] <= 9 else "10+"))
@@ -931,8 +1031,12 @@ def case_st(quick):
     return st.fixed_dictionaries({
         "model": st.one_of(projgen.model_st(2, 5 if quick else 6, richness=1),
                            projgen.model_st(3, 5 if quick else 6, richness=1, dense=True)),
-        "kind": st.sampled_from(["fresh", "incr", "incr", "incr", "incr", "download", "download", "download", "shared"]),
-        "edits": st.lists(projgen.edit_st, min_size=1, max_size=3),
+        "kind": st.sampled_from(["fresh", "incr", "incr", "incr", "incr", "download", "download", "download", "shared", "shared"]),
+        "edits": st.lists(projgen.build_edit_st, min_size=1, max_size=3),
+        "noaudit": st.lists(st.sampled_from([0, 0, 1]), min_size=3, max_size=3),
+        "consumer_noaudit": st.sampled_from([False, False, True]),
+        "sh_upload": st.booleans(),
+        "rgit": st.one_of(*([st.just(0)] * 5 + [st.integers(1, 9)])),
         "dl_keep": st.sampled_from([0, 0, 1, 1, 2]),
         "dlmode": st.sampled_from(["yes", "yes", "deps"]),
         "dl_back": st.booleans(),
